@@ -439,13 +439,15 @@ func c12IssueVerify(c *Ctx) {
 	hd := c.Fn("cmd/rdpgw/web", "Handler.HandleDownload")
 	ch := c.Fn("cmd/rdpgw/security", "CheckHost")
 	find := func(fn *ssa.Function) (string, string, int64, bool) {
-		for _, ci := range callsTo(fn, "strings.Replace", "strings.ReplaceAll") {
-			if s, ok := constString(arg(ci, 1)); ok && strings.Contains(s, "preferred_username") {
-				n := int64(-1)
-				if calleeName(ci) == "strings.Replace" {
-					n, _ = constInt(arg(ci, 3))
+		for _, sf := range scopeFuncs(fn, 1) {
+			for _, ci := range callsTo(sf, "strings.Replace", "strings.ReplaceAll") {
+				if s, ok := constString(arg(ci, 1)); ok && strings.Contains(s, "preferred_username") {
+					n := int64(-1)
+					if calleeName(ci) == "strings.Replace" {
+						n, _ = constInt(arg(ci, 3))
+					}
+					return s, calleeName(ci), n, true
 				}
-				return s, calleeName(ci), n, true
 			}
 		}
 		return "", "", 0, false
